@@ -2660,7 +2660,8 @@ fn text_class(t: &str) -> String {
                 } else if seps > 0 && !(braced_only && other == 1) {
                     m = true;
                 }
-                i = j;
+                // continue INSIDE the body: attributes nested in it are classified too
+                i += 1;
             } else {
                 e = true;
             }
